@@ -49,7 +49,15 @@ def cases(draw, tier="quick"):
         # fewer requests than messages, so that the callbacks' follow-up reads find buffered messages too
         P["get_burst"] = draw(st.integers(11, 13))
         P["gets"] = "late"
-    if draw(st.integers(0, 2)) == 0:
+    if P["dilate"] == [True, True] and P["mode"] == "deferred" and draw(st.booleans()):
+        # both dilating: their dilate-N control records and the application phases are reordered together
+        P["reorder"] = True
+        slow = draw(st.integers(0, 1))
+        P["w_s2c"] = [1 if slow == 0 else 10, 1 if slow == 1 else 10]
+        P["w_adv"] = 6
+        if len(P["sends"][1 - slow]) < 2:
+            P["sends"][1 - slow] = P["sends"][1 - slow] + [b"d0", b"d1"]
+    elif draw(st.integers(0, 2)) == 0:
         # one side reads slowly: its inbound queue builds up, so dup/reorder act on many messages at once
         slow = draw(st.integers(0, 1))
         P["w_s2c"] = [1 if slow == 0 else 10, 1 if slow == 1 else 10]
